@@ -409,11 +409,12 @@ def expand_item(repo, relfile, selector, body, tmpl_name, tmpl_line, opts):
             recv = _norm(src[s0:dot])
             x_ = mm.group(1)
             inner = src[fp.body_open + mm.end():close].strip()
-            rep = ("{ let %s_v = %s; let mut %s: usize = 0;\n        while %s < %s_v.len()\n%s\n        { let %s = &%s_v[%s]; let %s_o = %s;"
-                   " if %s_o.is_some() { return %s_o; } %s += 1; }\n        None }"
-                   % (iv, recv, iv, iv, iv, text, x_, iv, iv, iv, inner, iv, iv, iv))
-            add(s0, close + 1, rep, ("repo", relfile, line_of(src, s0)), "T12",
+            here = ("repo", relfile, line_of(src, s0))
+            add(s0, s0, "{ let %s_v = %s; let mut %s: usize = 0;\n        while %s < %s_v.len()\n" % (iv, recv, iv, iv, iv), here, "T12",
                 "tail `%s.iter().find_map(|%s| ..)` -> the index loop that find_map is (first Some returned)" % (recv, x_))
+            add(s0, s0, text + "\n", origin, None)
+            add(s0, close + 1, "        { let %s = &%s_v[%s]; let %s_o = %s; if %s_o.is_some() { return %s_o; } %s += 1; }\n        None }"
+                % (x_, iv, iv, iv, inner, iv, iv, iv), here, None)
         elif d == "noop-closure":
             pass
         elif d == "closure":
